@@ -115,6 +115,94 @@ theorem C05_rx_done (fuel : Nat) (h : Handle) (c : Chip) (wf : c.WF) (hl : c.isL
   · split <;> rfl
   · split <;> rfl
 
+set_option linter.unusedSimpArgs false in
+/-- reading the payload in implicit-header mode: the length is the configured one (as `uint8_t`),
+    RegRxNbBytes is not read -/
+theorem wp_loraRxReadPayload_implicit (h : Handle) (c : Chip) (bus : List BusEv) (cbs : List CbEvent) (Q)
+    (wf : c.WF) (hl : c.isLora = true) (hm : h.activeModem = Gen.SX127x_MODULATION_LORA) (hexp : h.expected ≠ 0)
+    (hcap : 255 ≤ h.packet.length) :
+    wp loraRxReadPayload h ⟨c, bus, cbs⟩ Q ↔
+      Q (.ok ()) { h with expected := h.expected.toUInt8.toUInt16,
+                          packet := h.packet.wrs 0 (loraPacket c (c.lora.rd 0x10) h.expected.toUInt8.toNat) }
+        ⟨if h.expected.toUInt8.toNat = 0 then { c with lora := c.lora.wr 0x0d (c.lora.rd 0x10) }
+          else { c with lora := c.lora.wr 0x0d (c.lora.rd 0x10 + UInt8.ofNat h.expected.toUInt8.toNat) },
+         .rb 0 h.expected.toUInt8.toNat (.ok (loraPacket c (c.lora.rd 0x10) h.expected.toUInt8.toNat))
+           :: .w 0x0d [c.lora.rd 0x10] (.ok ()) :: .r 0x10 1 (.ok (be32 [c.lora.rd 0x10]))
+           :: bus, cbs⟩ := by
+  have hn : h.expected.toUInt8.toNat ≤ 255 := by have := h.expected.toUInt8.toNat_lt; omega
+  have hlen0d : 0x0d < c.lora.length := by rw [wf.hl]; decide
+  have wf1 : ({ c with lora := c.lora.wr 0x0d (c.lora.rd 0x10) } : Chip).WF := ⟨wf.hs, by simp [wf.hl], wf.hf, wf.hb⟩
+  unfold loraRxReadPayload
+  simp only [wp_bind, wp_checkModulation, hm, ne_eq, not_true_eq_false, ↓reduceIte, wp_getH, hexp, wp_rread, wp_modH, wp_pure,
+    wp_swrite, show Gen.REGRXNBBYTES = 0x13 from rfl, show Gen.REGFIFORXCURRENTADDR = 0x10 from rfl,
+    show Gen.REGFIFOADDRPTR = 0x0d from rfl, show Gen.REGFIFO = 0 from rfl,
+    readN_one _ 0x13 (by decide), readN_one _ 0x10 (by decide), show (0x13 % 128) = 0x13 from rfl,
+    show (0x10 % 128) = 0x10 from rfl, peek_lora _ _ hl (show inPage 0x13 = true by decide),
+    peek_lora _ _ hl (show inPage 0x10 = true by decide), be32_single, writeN_one,
+    write_lora _ 0x0d _ hl (by decide) (by decide) (by decide)]
+  rw [wp_ite, if_neg (by omega)]
+  simp only [wp_bind, wp_modH, wp_rread, wp_swrite, wp_getH, hm,
+    readN_one _ 0x10 (by decide), show (0x10 % 128) = 0x10 from rfl,
+    peek_lora _ _ hl (show inPage 0x10 = true by decide), be32_single, writeN_one,
+    write_lora _ 0x0d _ hl (by decide) (by decide) (by decide)]
+  rw [wp_ite, if_pos (by omega), wp_bind, wp_bread]
+  rw [readN_fifo_lora _ (by exact hl) wf1]
+  simp only [rd_wr_same _ _ _ hlen0d, wr_wr_same]
+  unfold packetCopy
+  simp only [wp_bind, wp_getH]
+  have hlp : (loraPacket c (c.lora.rd 0x10) h.expected.toUInt8.toNat).length = h.expected.toUInt8.toNat := by
+    simp [loraPacket]
+  have hmap : ((List.range h.expected.toUInt8.toNat).map
+      (fun i => c.buf.rd (((c.lora.rd 0x10).toNat + i) % 256))).length = h.expected.toUInt8.toNat := by simp
+  rw [wp_ite, if_pos (by rw [hmap]; omega), wp_setH]
+  unfold loraPacket
+  exact Iff.rfl
+
+/-- **C05, implicit header.** With a length configured by `sx127x_lora_set_implicit_header`
+    (`expected_packet_length ≠ 0`; any 16-bit value, the code uses its low byte), when the chip has
+    raised RxDone without CadDone and without PayloadCrcError, every start address in RegFifoRxCurrentAddr (wrap-around
+    included), every buffer content, every prior FIFO pointer and every other handle field: one
+    handler invocation invokes the receive callback exactly once, with exactly the bytes the
+    chip stored and the reported length, acknowledges exactly the flags it read, and leaves the
+    per-packet state reset (the outcome does not depend on what preceded). -/
+theorem C05_rx_done_implicit (fuel : Nat) (h : Handle) (c : Chip) (wf : c.WF) (hl : c.isLora = true)
+    (hm : h.activeModem = Gen.SX127x_MODULATION_LORA) (hcb : h.rxCb = true) (hexp : h.expected ≠ 0)
+    (hcap : 255 ≤ h.packet.length)
+    (hcad : c.lora.rd 0x12 &&& 0x04 = 0) (hcrc : c.lora.rd 0x12 &&& 0x20 = 0) (hrx : c.lora.rd 0x12 &&& 0x40 ≠ 0) :
+    wp (handleInterrupt fuel) h ⟨c, [], []⟩ (fun r h' s' =>
+      s'.cbs = [.rx (loraPacket c (c.lora.rd 0x10) h.expected.toUInt8.toNat) h.expected.toUInt8.toNat] ∧
+      h' = afterLoraRx h (loraPacket c (c.lora.rd 0x10) h.expected.toUInt8.toNat) ∧
+      s'.chip.lora.rd 0x12 = c.lora.rd 0x12 &&& ~~~ c.lora.rd 0x12 ∧
+      s'.chip.buf = c.buf ∧ s'.chip.shared = c.shared ∧ s'.chip.fsk = c.fsk) := by
+  rw [wp_handleInterrupt_lora _ _ _ _ hm]
+  unfold loraHandleInterrupt loraReadGuard
+  simp only [wp_bind, wp_rread, wp_swrite, wp_getH, show Gen.REGIRQFLAGS = 0x12 from rfl,
+    readN_one _ 0x12 (by decide), show (0x12 % 128) = 0x12 from rfl, peek_lora _ _ hl (show inPage 0x12 = true by decide),
+    be32_single, writeN_one, flag_consts.1, flag_consts.2.1, flag_consts.2.2.1, hcad, hcrc, hrx, ne_eq,
+    not_true_eq_false, not_false_eq_true, ↓reduceIte, write_lora_flags _ _ hl]
+  have wf1 : ({ c with lora := c.lora.wr 0x12 (c.lora.rd 0x12 &&& ~~~ c.lora.rd 0x12) } : Chip).WF :=
+    ⟨wf.hs, by simp [wf.hl], wf.hf, wf.hb⟩
+  rw [wp_attempt, wp_loraRxReadPayload_implicit _ _ _ _ _ wf1 (by exact hl) hm hexp hcap]
+  simp only [rd_wr_ne _ 0x12 0x13 _ (by decide), rd_wr_ne _ 0x12 0x10 _ (by decide), loraPacket]
+  unfold rxCallback
+  simp only [wp_bind, wp_pure, wp_getH, hcb, ↓reduceIte, wp_cb, wp_modH]
+  have hlen : ((List.range h.expected.toUInt8.toNat).map (fun i => c.buf.rd (((c.lora.rd 0x10).toNat + i) % 256))).length
+      = h.expected.toUInt8.toNat := by simp
+  have hn : h.expected.toUInt8.toNat ≤ 255 := by have := h.expected.toUInt8.toNat_lt; omega
+  have htake := wrs_take h.packet _ (by rw [hlen]; omega : ((List.range h.expected.toUInt8.toNat).map
+    (fun i => c.buf.rd (((c.lora.rd 0x10).toNat + i) % 256))).length ≤ h.packet.length)
+  rw [hlen] at htake
+  have hu16 : h.expected.toUInt8.toUInt16.toNat = h.expected.toUInt8.toNat := by simp
+  simp only [hu16, htake]
+  refine ⟨by trivial, ?_, ?_, ?_, ?_, ?_⟩
+  · simp only [afterLoraRx, hm, hcb]
+  · split <;> simp only [rd_wr_ne _ 0x0d 0x12 _ (by decide)] <;> exact rd_wr_same _ _ _ (by rw [wf.hl]; decide)
+  · split <;> rfl
+  · split <;> rfl
+  · split <;> rfl
+
+
+
 /-- a packet flagged with a payload CRC error is never delivered: the handler only acknowledges
     the flags and restarts the hop sequence -/
 theorem C05_crc_error (fuel : Nat) (h : Handle) (c : Chip) (hl : c.isLora = true)
@@ -177,5 +265,33 @@ theorem C05_cached (c : SysCfg) (hc : c.cached = true) (hnr : c.NoReact) (s : Sy
   · rw [hcbs, hq1]; rfl
   · show (s.step c (.api .irq [] [])).1.handle = _
     rw [hhd, hq2]
+
+/-- **C05 in the cached build, implicit header.** From any state reachable by an admissible
+    history, with LoRa active, a configured implicit-header length, a receive callback registered: when the chip has
+    raised RxDone (without CadDone / PayloadCrcError), one handler invocation reports exactly
+    one callback, the receive callback with the chip's bytes and length. -/
+theorem C05_cached_implicit (c : SysCfg) (hc : c.cached = true) (hnr : c.NoReact) (s : Sys) (i : Inv s.world)
+    (h : Handle) (hh : s.handle = some h) (hl : s.world.chip.isLora = true)
+    (hm : h.activeModem = Gen.SX127x_MODULATION_LORA) (hcb : h.rxCb = true) (hexp : h.expected ≠ 0)
+    (hcap : 255 ≤ h.packet.length)
+    (hcad : s.world.chip.lora.rd 0x12 &&& 0x04 = 0) (hcrc : s.world.chip.lora.rd 0x12 &&& 0x20 = 0)
+    (hrx : s.world.chip.lora.rd 0x12 &&& 0x40 ≠ 0) :
+    let st := s.step c (.api .irq [] [])
+    let ch := s.world.chip
+    ∃ cbs bus, st.2 = .ret (.ok .none) cbs bus ∧
+      cbs.map (·.ev) = [.rx (loraPacket ch (ch.lora.rd 0x10) h.expected.toUInt8.toNat) h.expected.toUInt8.toNat] ∧
+      st.1.handle = some (afterLoraRx h (loraPacket ch (ch.lora.rd 0x10) h.expected.toUInt8.toNat)) ∧
+      Inv st.1.world := by
+  intro st ch
+  have hw := wp_irq c.cap c.fuel _ _ _ (C05_rx_done_implicit c.fuel h s.world.chip i.chip hl hm hcb hexp hcap hcad hcrc hrx)
+  obtain ⟨r, h', ps, cbs, bus, hobs, hhd, hchip, hq, hcbs, _, hinv⟩ :=
+    step_cached_of_wp c hc hnr s i .irq trivial h hh rfl _ hw
+  obtain ⟨hr, r0, hq1, hq2, _⟩ := hq
+  subst hr
+  refine ⟨cbs, bus, hobs, ?_, ?_, hinv⟩
+  · rw [hcbs, hq1]; rfl
+  · show (s.step c (.api .irq [] [])).1.handle = _
+    rw [hhd, hq2]
+
 
 end Sx
